@@ -264,7 +264,27 @@ def correspond(tier):
         if not ok:
             c.disagree(input=line, impl={"cur": icur, "hist": ihist}, model=ans)
         c.sample({"ops": line, "model": ans[:200]})
-    return [c]
+    return [c, _suite_real_runs(tier)]
+
+
+def _suite_real_runs(tier):
+    """whole real runs over the option lattice (kernels, resamplers, clustering, boundaries, volume-variation, every
+    documented blob form): after every pipeline step and in everything posterior() returns, each row must satisfy
+    x = T(u), logl = L(x), blob = B(x) exactly — what the record model's theorems state for every op sequence"""
+    c = Corr("real-run-coherence", "exact (recomputed T(u), L(x), B(x) per row)")
+    rng = common.rng_for("C07.realruns")
+    n_runs = 24 if tier == "quick" else 300
+    log = []
+    found = _oracle_real_runs(rng, n_runs, log=log, stop_after=3)
+    for cfg in log:
+        c.case(repr(sorted(cfg.items(), key=str)), True)
+        c.count(cfg["mode"])
+        c.count("clustering" if cfg["clustering"] else "no_clustering")
+    for f in found:
+        c.disagree(input=f["config"], impl=f["what"], model="every row is one coherent record (C07 theorems)", seed=f["seed"])
+    if log:
+        c.sample({"config": log[0]})
+    return c
 
 
 # ------------------------------------------------------------------ property oracle on the real code
@@ -296,7 +316,7 @@ def _oracle_sequences(rng, n_seq):
     return found
 
 
-def _oracle_real_runs(rng, n_runs):
+def _oracle_real_runs(rng, n_runs, log=None, stop_after=3):
     """real Sampler over the option lattice; after every pipeline step recompute T(u), Lk(x) for every particle"""
     from tempest import Sampler
     found = []
@@ -305,11 +325,13 @@ def _oracle_real_runs(rng, n_runs):
         kernel = rng.choice(["tpcn", "rwm"])
         resample = rng.choice(["mult", "syst"])
         clustering = rng.random() < 0.4
-        mode = rng.choice(["scalar", "vector", "blobs"])
+        mode = rng.choice(["scalar", "vector", "blobs", "blobs-vec3", "blobs-struct", "blobs-mat"])
         per = [0] if (d >= 2 and rng.random() < 0.3) else None
         refl = [d - 1] if (d >= 2 and rng.random() < 0.3 and (per is None or d - 1 not in per)) else None
         vv = rng.choice([None, None, 0.5])
         cfg = dict(d=d, kernel=kernel, resample=resample, clustering=clustering, mode=mode, periodic=per, reflective=refl, volume_variation=vv)
+        if log is not None:
+            log.append(cfg)
 
         def T(u):
             return 4.0 * u - 2.0
@@ -320,12 +342,31 @@ def _oracle_real_runs(rng, n_runs):
             like = lambda X: np.array([L1(r) for r in X])
         elif mode == "blobs":
             like = lambda x: (L1(x), float(x[0]) * 2.0 + 1.0)
+        elif mode == "blobs-vec3":      # the documented `blobs_dtype=(float, 3)` form
+            like = lambda x: (L1(x), np.array([float(x[0]) * 2.0 + 1.0, float(x[-1]), float(np.sum(x))]))
+        elif mode == "blobs-struct":    # the documented structured form: several named blobs
+            like = lambda x: (L1(x), float(x[0]) * 2.0 + 1.0, int(x[-1] > 0))
+        elif mode == "blobs-mat":
+            like = lambda x: (L1(x), np.outer([1.0, float(x[0])], [float(x[-1]), 2.0]))
         else:
             like = L1
+        bdt = {"blobs": "f8", "blobs-vec3": (float, 3), "blobs-struct": [("a", float), ("b", int)], "blobs-mat": (float, (2, 2))}.get(mode)
+
+        def blob_ok(b, x):
+            if mode == "blobs":
+                return float(np.ravel(b)[0]) == float(x[0]) * 2.0 + 1.0
+            if mode == "blobs-vec3":
+                return np.array_equal(np.asarray(b, dtype=float).ravel(), [float(x[0]) * 2.0 + 1.0, float(x[-1]), float(np.sum(x))])
+            if mode == "blobs-struct":
+                b = np.asarray(b).reshape(-1)[0]
+                return float(b["a"]) == float(x[0]) * 2.0 + 1.0 and int(b["b"]) == int(x[-1] > 0)
+            if mode == "blobs-mat":
+                return np.array_equal(np.asarray(b, dtype=float).reshape(2, 2), np.outer([1.0, float(x[0])], [float(x[-1]), 2.0]))
+            return True
         seed = rng.randrange(2 ** 31)
         np.random.seed(seed)
         s = Sampler(T, like, d, n_particles=16, clustering=clustering, sample=kernel, resample=resample,
-                    vectorize=(mode == "vector"), blobs_dtype=("f8" if mode == "blobs" else None),
+                    vectorize=(mode == "vector"), blobs_dtype=bdt,
                     periodic=per, reflective=refl, volume_variation=vv, n_steps=1, n_max_steps=2)
         core = s._core
         bad = []
@@ -344,7 +385,7 @@ def _oracle_real_runs(rng, n_runs):
                 if L1(x[i]) != l[i]:
                     bad.append(f"{where}: particle {i} logl != L(x) ({l[i]!r} vs {L1(x[i])!r})")
                     break
-                if mode == "blobs" and float(np.ravel(cur["blobs"][i])[0]) != float(x[i][0]) * 2.0 + 1.0:
+                if bdt is not None and not blob_ok(cur["blobs"][i], x[i]):
                     bad.append(f"{where}: particle {i} blob != blob(x)")
                     break
         for name in ("resampler", "mutator"):
@@ -365,14 +406,14 @@ def _oracle_real_runs(rng, n_runs):
                     verify("after commit")
                 # returned to the user
                 for res_, trim_ in ((False, True), (True, True), (True, False), (False, False)):
-                    out = s.posterior(return_blobs=(mode == "blobs"), return_logw=True, resample=res_, trim_importance_weights=trim_)
+                    out = s.posterior(return_blobs=(bdt is not None), return_logw=True, resample=res_, trim_importance_weights=trim_)
                     xs, ws, ls = out[0], out[1], out[2]
                     where = f"posterior(resample={res_}, trim_importance_weights={trim_})"
                     for i in range(len(xs)):
                         if L1(xs[i]) != ls[i]:
                             bad.append(f"{where}: row {i} logl != L(x)")
                             break
-                        if mode == "blobs" and float(np.ravel(out[3][i])[0]) != float(xs[i][0]) * 2.0 + 1.0:
+                        if bdt is not None and (len(out[3]) != len(xs) or not blob_ok(out[3][i], xs[i])):
                             bad.append(f"{where}: row {i} blob != blob(x)")
                             break
                     if bad:
@@ -382,7 +423,7 @@ def _oracle_real_runs(rng, n_runs):
             pass
         if bad:
             found.append({"what": bad[0], "config": cfg, "seed": seed})
-            if len(found) >= 3:
+            if len(found) >= stop_after:
                 break
     return found
 
